@@ -823,3 +823,89 @@ def gen_random(seed=0, n=60):
         name = f"R{seed}_{i}"
         out.append((f"rand::{name}", _RandMod(random.Random(rnd.randrange(1 << 60)), name).build()))
     return out
+
+
+class _RandSeq(_RandMod):
+    """random designs with registers: one clock, one reset, 1-3 registers each driven by its own always_ff
+    (if_reset + guarded updates reading inputs, lets and the OLD values of all registers), comb logic on top"""
+
+    def build(self):
+        r = self.r
+        self.ports += [("clk", "input ", "clock"), ("rst", "input ", "reset")]
+        nin = r.randrange(2, 5)
+        for i in range(nin):
+            w = self.w(small=r.random() < 0.7)
+            self.ports.append((f"i{'abcdefg'[i]}", "input ", lg(w)))
+            self.vals.append((f"i{'abcdefg'[i]}", w))
+        body, decl = [], []
+        regs = []
+        for k in range(r.randrange(1, 4)):
+            w = self.w(small=r.random() < 0.7)
+            regs.append((f"r{k}", w))
+            decl.append(f"    var r{k}: logic<{w}>;")
+        for i in range(r.randrange(1, 4)):
+            w = self.w(small=True)
+            body.append(f"    let l{i}: logic<{w}> = {self.expr(self.vals + regs)};")
+            self.vals.append((f"l{i}", w))
+        allv = self.vals + regs
+        for (rn, w) in regs:
+            others = [v for v in allv if v[0] != rn]
+            blk = [f"    always_ff {'(clk, rst) ' if r.random() < 0.5 else ''}{{", "        if_reset {",
+                   f"            {rn} = {self.const(w)};", "        } else {"]
+            first = r.random()
+            if first < 0.4:
+                blk.append(f"            {rn} = {rn} {r.choice(['+', '-', '^'])} {self.expr(others, 2)};")
+            elif first < 0.7:
+                blk.append(f"            if {self.cond(others)} {{")
+                blk.append(f"                {rn} = {self.expr(allv, 1)};")
+                blk.append("            }")
+            else:
+                blk.append(f"            {rn} = {self.expr(allv, 1)};")
+            for _ in range(r.randrange(0, 3)):
+                k = r.random()
+                if k < 0.5:
+                    blk.append(f"            if {self.cond(others)} {{")
+                    if w > 2 and r.random() < 0.3:
+                        lo = r.randrange(w - 1)
+                        hi = r.randrange(lo, w)
+                        blk.append(f"                {rn}[{hi}:{lo}] = {self.expr(others, 2)};")
+                    else:
+                        blk.append(f"                {rn} = {self.expr(others, 1)};")
+                    if r.random() < 0.4:
+                        blk.append("            } else {")
+                        blk.append(f"                {rn} = {self.expr(others, 2)};")
+                    blk.append("            }")
+                else:
+                    t, tw = r.choice([x for x in others if 2 <= x[1] <= 6] or others)
+                    blk.append(f"            case {t} {{")
+                    seen = set()
+                    for _ in range(r.randrange(2, 5)):
+                        cv = r.randrange(1 << min(tw, 6))
+                        if cv in seen:
+                            continue
+                        seen.add(cv)
+                        blk.append(f"                {tw}'d{cv}: {rn} = {self.expr(others, 2)};")
+                    blk.append("                default: {}")
+                    blk.append("            }")
+            blk += ["        }", "    }"]
+            body += blk
+        k = 0
+        for (rn, w) in regs:
+            self.ports.append((f"o{k}", "output", lg(w)))
+            body.append(f"    assign o{k} = {rn};")
+            k += 1
+        for _ in range(r.randrange(1, 3)):
+            w = self.w(small=True)
+            self.ports.append((f"o{k}", "output", lg(w)))
+            body.append(f"    assign o{k} = {self.expr(allv)};")
+            k += 1
+        return mod(self.name, self.ports, "\n".join(decl + body))
+
+
+def gen_random_seq(seed=0, n=32):
+    rnd = random.Random(seed * 104729 + 7)
+    out = []
+    for i in range(n):
+        name = f"Q{seed}_{i}"
+        out.append((f"rseq::{name}", _RandSeq(random.Random(rnd.randrange(1 << 60)), name).build()))
+    return out
